@@ -260,3 +260,133 @@ func viewWrites(eff *Effects, bv bufView, depth int) bool {
 	})
 	return found
 }
+
+// fieldSource: v is a load of field k of a struct object — a local struct variable or literal, an object made by a
+// constructor function of the module, or (with subst) a struct parameter bound to one of those. The result is the
+// single value stored into that field where the object is built. When the object comes from a constructor, the value
+// lives in the constructor's body and subst is extended with constructor parameter → call argument, so that the
+// caller can read parameters of the constructor as the values it was called with.
+func fieldSource(v ssa.Value, subst map[ssa.Value]ssa.Value) (ssa.Value, bool) {
+	var base ssa.Value
+	k := -1
+	switch x := v.(type) {
+	case *ssa.UnOp:
+		if fa, ok := x.X.(*ssa.FieldAddr); ok && x.Op == token.MUL {
+			base, k = fa.X, fa.Field
+		}
+	case *ssa.Field:
+		base, k = x.X, x.Field
+	}
+	if k < 0 {
+		return nil, false
+	}
+	for depth := 0; depth < 6; depth++ {
+		base = stripConv(base)
+		if s, ok := subst[base]; ok {
+			base = s
+			continue
+		}
+		switch b := base.(type) {
+		case *ssa.UnOp:
+			if b.Op != token.MUL {
+				return nil, false
+			}
+			if a, ok := b.X.(*ssa.Alloc); ok {
+				// a struct variable loaded as a whole, or a cell holding the pointer
+				if sv := singleWholeStore(a); sv != nil {
+					if _, isStruct := a.Type().Underlying().(*types.Pointer).Elem().Underlying().(*types.Struct); !isStruct {
+						base = sv
+						continue
+					}
+				}
+				base = a
+				continue
+			}
+			return nil, false
+		case *ssa.Phi:
+			if o := origin1(b); o != nil && o != ssa.Value(b) {
+				base = o
+				continue
+			}
+			return nil, false
+		case *ssa.Alloc:
+			var val ssa.Value
+			n := 0
+			for _, r := range refs(b) {
+				switch x := r.(type) {
+				case *ssa.FieldAddr:
+					if x.X != ssa.Value(b) || x.Field != k {
+						continue
+					}
+					for _, r2 := range refs(x) {
+						if st, ok := r2.(*ssa.Store); ok && st.Addr == ssa.Value(x) {
+							val = st.Val
+							n++
+						}
+					}
+				case *ssa.Store:
+					if x.Addr == ssa.Value(b) {
+						// the whole struct copied from another one
+						if vs := structFieldValues(x.Val, k, 0); len(vs) == 1 {
+							val = vs[0]
+							n++
+						}
+					}
+				}
+			}
+			if n == 1 {
+				return val, true
+			}
+			return nil, false
+		case *ssa.Call:
+			g := b.Common().StaticCallee()
+			if g == nil || g.Blocks == nil || !InModule(g) {
+				return nil, false
+			}
+			var obj ssa.Value
+			for _, ret := range returnsOf(g) {
+				if len(ret.Results) == 0 {
+					return nil, false
+				}
+				o := origin1(ret.Results[0])
+				if o == nil || (obj != nil && o != obj) {
+					return nil, false
+				}
+				obj = o
+			}
+			if obj == nil {
+				return nil, false
+			}
+			for i, prm := range g.Params {
+				if i < len(b.Common().Args) {
+					a := b.Common().Args[i]
+					if s, ok := subst[stripConv(a)]; ok {
+						a = s
+					}
+					subst[prm] = a
+				}
+			}
+			base = obj
+			continue
+		default:
+			return nil, false
+		}
+	}
+	return nil, false
+}
+
+// substOrigin: the single origin of v, read through subst.
+func substOrigin(v ssa.Value, subst map[ssa.Value]ssa.Value) ssa.Value {
+	for i := 0; i < 6; i++ {
+		o := origin1(v)
+		if o == nil {
+			return nil
+		}
+		if s, ok := subst[o]; ok {
+			v = s
+			continue
+		}
+		return o
+	}
+	return nil
+}
